@@ -312,7 +312,8 @@ class C20:
                     'spacing': rng.choice([0.1, 0.05, 0.04])},
                     tags={'k': 'voxel'})
             else:
-                bad = rng.choice(['nonsphere', 'negr', 'center2', 'centers'])
+                bad = rng.choice(['nonsphere', 'negr', 'center2', 'centers',
+                                  'center33', 'center0d'])
                 if bad == 'nonsphere':
                     b.emit('spheres', {'members': [
                         {'n': 1.5, 'r': 0.5, 'center': [0, 0, 0]},
@@ -325,6 +326,15 @@ class C20:
                            tags={'k': 'reject', 'reject': True})
                 elif bad == 'center2':
                     b.emit('sphere', {'n': 1.5, 'r': 0.5, 'center': [1, 2]},
+                           tags={'k': 'reject', 'reject': True})
+                elif bad == 'center33':
+                    # three numbers per coordinate: not a point
+                    b.emit('sphere', {'n': 1.5, 'r': 0.5, 'center': {
+                        'arr': [[0, 0, 0], [1, 1, 1], [2, 2, 2]]}},
+                        tags={'k': 'reject', 'reject': True})
+                elif bad == 'center0d':
+                    b.emit('sphere', {'n': 1.5, 'r': 0.5,
+                                      'center': {'arr': 5.0}},
                            tags={'k': 'reject', 'reject': True})
                 else:
                     b.emit('sphere', {'n': 1.5, 'r': 0.5, 'center': 3.0},
